@@ -47,7 +47,7 @@ func (propC03) Gen(r *Rng, tier string) *World {
 	w.Prog = g.Program()
 	w.Cfg = g.C
 	w.Cfg.ViaDirect = r.P(0.3)
-	w.Cfg.DirStyle = r.Intn(6)
+	w.Cfg.DirStyle = r.Intn(8)
 	w.Cfg.ViaAPI = r.P(0.4)
 	w.Cfg.Event = []string{"", "", "", "report", "debug", "both"}[r.Intn(6)]
 	w.API = []string{"eval", "eval", "eval", "tryeval", "evalbool"}[r.Intn(5)] // TryEval with every variable available evaluates too
